@@ -17,7 +17,7 @@ LEVEL_TEXT = ('Decided exactly (R01.10): for l = 2..4 (thorough: up to 10) and c
 LEVEL_NOTE = ('Trusted: Cython-subset front-end, interpreter, our transcription of TS72 eq. 82 / KMN15 eqs. 4-14 / S74 eq. 18 (cross-validated by the sibling limits and by C04, whose independently transcribed '
               'starting solutions must be flow-invariant under these matrices). Not decided: convergence of CyRK to tolerance, hence the numerical closed-form equality.')
 EXPLANATION = ('R01.1 coefficient matrices == reference (linearity shown first); R01.2 sibling limits (static = dynamic at omega=0; incompressible = compressible as K -> inf); '
-               'R01.3 dispatch agreement (class, number of solutions, number of ys); R01.5 Love extraction (k, h, l) = (y5 - 1, g y1, g y3) of the surface row; R01.7/R01.8 the interpreted sibling solver and its propagator matrices against the same references; R01.9 every class conserves the bilinear concomitant of two solutions; R01.10 Kelvin closed form from exact solutions; R01.11 on the executed driver the stored Love numbers are find_love_cf of the assembled surface row of their own solution type; R01.12 the assembled solution of every layer lies in the span of the integrated solutions of that layer.')
+               'R01.3 dispatch agreement (class, number of solutions, number of ys); R01.5 Love extraction (k, h, l) = (y5 - 1, g y1, g y3) of the surface row; R01.7/R01.8 the interpreted sibling solver and its propagator matrices against the same references; R01.9 every class conserves the bilinear concomitant of two solutions; R01.10 Kelvin closed form from exact solutions; R01.11 on the executed driver the stored Love numbers are find_love_cf of the assembled surface row of their own solution type; R01.12 the assembled solution of every layer lies in the span of the integrated solutions of that layer; R01.13 material wiring: the solver object cf_build_solver builds, with its real update_interp, integrates the reference system with every property interpolated from its own array; R01.14 the driver hands cf_build_solver the slices of its own arrays that belong to the layer.')
 
 
 def run(chk):
@@ -111,6 +111,26 @@ def run(chk):
     dispatch(chk, repo, mo, mats)
     # ---- R01.5 Love extraction
     love(chk, repo, d, eq)
+    # ---- R01.13 material wiring: the solver object built by cf_build_solver (class selection, __init__, install_pointers) and its real update_interp feed diffeq
+    #      density / gravity / bulk / shear interpolated from their own arrays over the radius array, the frequency, degree and G that were handed in
+    for (kind, static, incomp), cname in SM.CLASSES.items():
+        try:
+            dyw, yw, Pw, built, wherew = SM.wired_rhs(repo, kind, static, incomp)
+        except SM.WiringProblem as wp:
+            chk.ob('R01.13', f'{kind} layer, static={static}, incompressible={incomp}: the solver cf_build_solver builds integrates the reference system with every material property interpolated from its own array '
+                   f'at the current radius and the frequency / degree / G it was given', False, str(wp), wp.where, key=f'R01.13|{cname}', method='interpretation of cf_build_solver -> ... -> diffeq')
+            continue
+        refw = ts72.reference_rhs(kind, static, incomp, yw, Pw)
+        namesw = ts72.LAYOUT[(kind, static)]
+        badw = [namesw[i] for i in range(len(namesw)) if not d.equal(dyw[i], refw[i])]
+        ok = built == cname and not badw
+        chk.ob('R01.13', f'{kind} layer, static={static}, incompressible={incomp}: the solver cf_build_solver builds integrates the reference system with every material property interpolated from its own array '
+               f'at the current radius and the frequency / degree / G it was given', ok,
+               (f'built {built}, expected {cname}; ' if built != cname else '') + (f'rows {badw} differ (a property is interpolated from another array, not refreshed, or a constant is mis-set)' if badw else ''),
+               wherew, key=f'R01.13|{cname}', method='interpretation of cf_build_solver -> __init__ -> install_pointers -> update_interp -> diffeq (CyRK interpolation by contract) + GF(p^2) PIT')
+    chk.floor('R01.13', 8)
+    from . import solver_whole as SW
+    SW.guarded(chk, 'C01', lambda: SW.build_arguments(chk, repo, 'R01.14'))
     # ---- R01.11 Love numbers of every requested type are read from the top row of that type's assembled solution (whole-driver symbolic execution)
     from . import solver_whole
     solver_whole.guarded(chk, 'C01', lambda: solver_whole.assembled(chk, repo, None, None, 'R01.11', rule_span='R01.12'))
